@@ -109,13 +109,9 @@ func l2Packet(d L2Dgram, data []byte, f L2Frag) buffer.VectorisedView {
 }
 
 func validateL2(c L2Case) error {
-	udps := 0
 	for i, d := range c.Dgrams {
 		if d.Src < 0 || d.Src >= len(remotes) || d.Dst < 0 || d.Dst >= len(locals) || d.Total < 9 || d.Total > 65000 || d.Proto == 1 {
 			return fmt.Errorf("datagram %d out of domain", i)
-		}
-		if d.Proto == udpNum {
-			udps++
 		}
 		for j := 0; j < i; j++ {
 			e := c.Dgrams[j]
@@ -461,9 +457,8 @@ func runKey(c KeyCase) *evid.Failure {
 		h := ipv4Header(d.Src, d.Dst, d.Proto, d.ID, 0, true, 64, 0, 0, 8)
 		dg[i] = Dgram{ID: hash.IPv4FragmentHash(header.IPv4(h)), Total: d.Total, Seed: uint32(i + 1)}
 	}
-	for i, f := range c.Seq {
+	for _, f := range c.Seq {
 		if f.D < 0 || f.D >= len(dg) || consistent(f, dg[f.D].Total) != nil {
-			_ = i
 			evid.Label("invalid_case_skipped")
 			return nil
 		}
